@@ -244,6 +244,11 @@ func cmdCodecCheck(args []string) int {
 				pn = append(pn, uint64([]int{0, 1, 2, 3, 4, 5, 6, 7, 8, 9, 255, 65535}[rng.Intn(12)]))
 			}
 			same("plain", version, pf, pn)
+			// records without a value, also as the very last bytes of the plaintext (no padding record after
+			// them: how other clients send a disconnect or an SMP abort)
+			same("plain", version, [][]byte{msg, {}}, []uint64{uint64([]int{1, 6, 0, 9}[i%4])})
+			same("plain", version, [][]byte{{}, {}}, []uint64{uint64([]int{1, 6}[i%2])})
+			same("plain", version, [][]byte{msg, blob(300), {}, {}}, []uint64{8, 6, 1})
 			m := func(k int) [][]byte {
 				out := [][]byte{}
 				for j := 0; j < k; j++ {
@@ -251,7 +256,9 @@ func cmdCodecCheck(args []string) int {
 				}
 				return out
 			}
-			questions := [][]byte{{}, []byte("q"), []byte("¿Cuál es la contraseña?"), []byte("Какой пароль?"), []byte("密码是什么"), bytes.Repeat([]byte("long question "), 300)}
+			questions := [][]byte{{}, []byte("q"), []byte("¿Cuál es la contraseña?"), []byte("Какой пароль?"), []byte("密码是什么"), bytes.Repeat([]byte("long question "), 300),
+				// a question is bytes, not necessarily well-formed UTF-8: Latin-1, a multi-byte character cut short, 0xff
+				[]byte("\xbfC\xf3mo se llama el caf\xe9?"), []byte("cut \xe5\xaf"), {0xff, 0xfe, 0x80}, []byte("a\xc3")}
 			same("smp1", version, append([][]byte{questions[rng.Intn(len(questions))]}, m(6)...), nil)
 			same("smp2", version, m(11), nil)
 			same("smp3", version, m(8), nil)
